@@ -115,6 +115,45 @@ example : SameOrdered3 (.float (F64.ofInt (-2))) (.float (F64.ofInt 0)) (.float 
   refine ⟨?_, ?_, ?_⟩ <;> decide
 example : binaryCmp .lt (.float (F64.ofInt (-2))) (.float (F64.ofInt 0)) = some true := by decide
 
+/-! ### chains that mix int and char
+
+An int and a char compare by code point (`int_char_order`), so any chain over ints and chars is ordered by one key. -/
+
+/-- the operand is an int or a char -/
+def IntLike : Value → Prop
+  | .int _ => True
+  | .char _ => True
+  | _ => False
+
+/-- the key an int or char is compared by: its value, the char's int32 code point as an int -/
+def intKey : Value → Int
+  | .int x => x.toInt
+  | .char c => c.toInt
+  | _ => 0
+
+theorem ordOf_intLike (a b : Value) (ha : IntLike a) (hb : IntLike b) :
+    ordOf a b = .ord (cmpInt (intKey a) (intKey b)) := by
+  cases a <;> cases b <;> simp only [IntLike] at ha hb <;> rfl
+
+/-- `<` and `<=` are transitive over any mix of int and char operands, and a strict step makes the result strict. -/
+theorem int_char_trans (a b c : Value) (ha : IntLike a) (hb : IntLike b) (hc : IntLike c)
+    (h1 : binaryCmp .le a b = some true) (h2 : binaryCmp .le b c = some true) :
+    binaryCmp .le a c = some true ∧
+    ((binaryCmp .lt a b = some true ∨ binaryCmp .lt b c = some true) → binaryCmp .lt a c = some true) := by
+  have hch := cmpInt_chain (intKey a) (intKey b) (intKey c)
+  unfold binaryCmp at *
+  rw [ordOf_intLike a b ha hb] at h1 ⊢; rw [ordOf_intLike b c hb hc] at h2 ⊢; rw [ordOf_intLike a c ha hc]
+  generalize cmpInt (intKey a) (intKey b) = o₁ at *
+  generalize cmpInt (intKey b) (intKey c) = o₂ at *
+  generalize cmpInt (intKey a) (intKey c) = o₃ at *
+  obtain ⟨hle, hlt⟩ := hch
+  cases o₁ <;> cases o₂ <;> simp [Ord3.result, CmpOp.holds] at h1 h2 hle hlt ⊢ <;>
+    cases o₃ <;> simp_all
+
+example : IntLike (.int 97#64) ∧ IntLike (.char 98#32) ∧ IntLike (.int 99#64) := ⟨trivial, trivial, trivial⟩
+example : binaryCmp .lt (.int 97#64) (.char 98#32) = some true ∧ binaryCmp .lt (.char 98#32) (.int 99#64) = some true := by
+  decide
+
 /-- Across int and float `==` is NOT transitive (in Go as in the model): 2^53 + 1 as a float is 2^53. -/
 theorem mixed_eq_not_transitive :
     equals (.int 9007199254740993#64) (.float (F64.ofInt 9007199254740992)) = true ∧
